@@ -17,7 +17,8 @@
     VIOLATION with a concrete input. *)
 From Coq Require Import ZArith List Bool Sorted.
 From NS Require Import Base.NoteSeq Model.TimeOps Proofs.TimeOps Proofs.TimeOpsTidy Proofs.TimeOpsConcat
-  Proofs.TimeOpsAdjust Proofs.TimeOpsExamples.
+  Proofs.TimeOpsAdjust Proofs.TimeOpsExamples Proofs.TimeOpsMeta Proofs.TimeOpsExtract.
+From NS Require Gen.G02 Model.Extract.   (* C02's model of _extract_subsequences, used qualified as [X.] *)
 Import ListNotations.
 Local Open Scope Z_scope.
 
@@ -133,6 +134,44 @@ Theorem C13_concat_rejects_short_duration : forall ps,
 Proof. exact concat_pairs_short. Qed.
 Print Assumptions C13_concat_rejects_short_duration.
 
+(** The composed operation: it drops ONLY tempo / time-signature / key events, and only ones that repeat
+    the value in force — everything else is exactly the placed events; the three state lists are
+    sub-sequences of the time-ordered placed events with the same value in force at every time. *)
+Theorem C13_concat_drops_only_redundant : forall ps,
+  Forall piece_ok ps ->
+  exists r, concat_pairs ps = Ok r /\
+    s_notes r = placed s_notes note_t ps 0 /\ s_texts r = placed s_texts text_t ps 0 /\
+    s_ccs r = placed s_ccs cc_t ps 0 /\ s_bends r = placed s_bends bend_t ps 0 /\
+    s_sects r = placed s_sects sect_t ps 0 /\
+    (let all := sort_by tp_time (placed s_tempos tempo_t ps 0) in
+     subseq (s_tempos r) all /\
+     forall t, force tp_time tp_qpm None (s_tempos r) t = force tp_time tp_qpm None all t) /\
+    (let all := sort_by ts_time (placed s_tsigs tsig_t ps 0) in
+     subseq (s_tsigs r) all /\
+     forall t, force ts_time (fun e => (ts_num e, ts_den e)) None (s_tsigs r) t =
+               force ts_time (fun e => (ts_num e, ts_den e)) None all t) /\
+    (let all := sort_by ks_time (placed s_ksigs ksig_t ps 0) in
+     subseq (s_ksigs r) all /\
+     forall t, force ks_time (fun e => (ks_key e, ks_mode e)) None (s_ksigs r) t =
+               force ks_time (fun e => (ks_key e, ks_mode e)) None all t).
+Proof. exact concat_drops_only_redundant. Qed.
+Print Assumptions C13_concat_drops_only_redundant.
+
+(** The rest of the message (id, filename, reference_number, collection_name, source_info, sequence_metadata,
+    instrument_infos, part_infos, section_groups) under concatenation: for each scalar the last non-default
+    value wins, repeated fields are appended in piece order, composers and genres keep first occurrences only. *)
+Theorem C13_concat_metadata_merge : forall ms,
+  let r := concat_meta ms in
+  (forall i, nth i (m_scalars r) 0 =
+             last (filter (fun x => negb (x =? 0)) (map (fun m => nth i (m_scalars m) 0) ms)) 0) /\
+  m_instr r = flat_map m_instr ms /\ m_parts r = flat_map m_parts ms /\ m_groups r = flat_map m_groups ms /\
+  (NoDup (m_composers r) /\ subseq (m_composers r) (flat_map m_composers ms) /\
+   forall x, In x (m_composers r) <-> In x (flat_map m_composers ms)) /\
+  (NoDup (m_genres r) /\ subseq (m_genres r) (flat_map m_genres ms) /\
+   forall x, In x (m_genres r) <-> In x (flat_map m_genres ms)).
+Proof. exact concat_meta_spec. Qed.
+Print Assumptions C13_concat_metadata_merge.
+
 (** The redundancy pass (remove_redundant_data), for ANY event list, generic in the event kind:
     it only drops; it never changes the value in force at any time; the event at a given place of the
     time-ordered list is dropped exactly when the event just before it has the same value; what is left has
@@ -193,6 +232,40 @@ Theorem C13_repeat_spec : forall s d osd,
     s_sub r = (0, 0).
 Proof. exact repeat_spec. Qed.
 Print Assumptions C13_repeat_spec.
+
+(** The cut IS C02's model of extract_subsequence(·, 0, d) (all fields; subsequence_info cleared afterwards),
+    so repeat = extract of the concatenation, stated against Model/Extract.v. *)
+Theorem C13_window_is_extract : forall d c,
+  window d c = of_xres (X.extract_subsequence G02.DEFAULT_PRESERVE c 0 d).
+Proof. exact window_is_extract. Qed.
+Print Assumptions C13_window_is_extract.
+
+Theorem C13_repeat_is_extract_of_concat : forall s d osd,
+  repeat_to_duration s d osd =
+  match repeat_pairs s d osd with
+  | Err e => Err e
+  | Ok ps => match concat_pairs ps with
+             | Err e => Err e
+             | Ok c => of_xres (X.extract_subsequence G02.DEFAULT_PRESERVE c 0 d)
+             end
+  end.
+Proof. exact repeat_is_extract_of_concat. Qed.
+Print Assumptions C13_repeat_is_extract_of_concat.
+
+(** Through C02's carried-state theorem: at every instant of [0, d) the tempo, time signature, key, chord
+    symbol and each preserved pedal (per instrument and control number) in effect in the result is the one in
+    effect in the concatenation of the copies. *)
+Theorem C13_repeat_state_in_effect : forall s d osd ps c r,
+  repeat_pairs s d osd = Ok ps -> concat_pairs ps = Ok c -> repeat_to_duration s d osd = Ok r ->
+  forall tau, 0 <= tau < d ->
+    X.in_effect tp_time X.tempo_with_time (s_tempos r) tau = X.in_effect tp_time X.tempo_with_time (s_tempos c) tau /\
+    X.in_effect ts_time X.tsig_with_time (s_tsigs r) tau = X.in_effect ts_time X.tsig_with_time (s_tsigs c) tau /\
+    X.in_effect ks_time X.ksig_with_time (s_ksigs r) tau = X.in_effect ks_time X.ksig_with_time (s_ksigs c) tau /\
+    X.in_effect tx_time X.text_with_time (X.chords_of r) tau = X.in_effect tx_time X.text_with_time (X.chords_of c) tau /\
+    forall kk, X.in_effect cc_time X.cc_with_time (X.with_key kk (s_ccs r)) tau
+               = X.in_effect cc_time X.cc_with_time (X.with_key kk (X.pedals_of G02.DEFAULT_PRESERVE c)) tau.
+Proof. exact repeat_state_in_effect. Qed.
+Print Assumptions C13_repeat_state_in_effect.
 
 Theorem C13_repeat_copy_k_sits_k_durations_later : forall s sd n (e : note),
   In e (placed s_notes note_t (repeat (s, Some sd) n) 0) <->
